@@ -81,8 +81,10 @@ func (bi *BodyInspector) Inspect(ctx context.Context, r *http.Request, profile *
 	}
 
 	// Restore the body for downstream handlers by creating a new reader that combines
-	// what we've already read with any remaining unread content
-	r.Body = io.NopCloser(io.MultiReader(bytes.NewReader(buffer.Bytes()), r.Body))
+	// what we've already read with any remaining unread content. The pooled buffer goes
+	// back to the pool when this function returns, so the restored body must own its bytes.
+	peeked := bytes.Clone(buffer.Bytes())
+	r.Body = io.NopCloser(io.MultiReader(bytes.NewReader(peeked), r.Body))
 
 	modelName := bi.extractModelName(buffer.Bytes())
 	if modelName != "" {
